@@ -9,7 +9,8 @@ use std::collections::{BTreeSet, HashMap};
 pub type Val = [u8; 32];
 
 pub fn eval(g: &GGM, x: u8) -> Result<Val, String> {
-  let mut out = [0u8; 32];
+  // the output buffer is deliberately not clean: its previous contents must not matter
+  let mut out = [x ^ 0xA5; 32];
   g.eval(&[x], &mut out).map(|_| out).map_err(|e| e.to_string())
 }
 
